@@ -239,17 +239,18 @@ Proof.
   rewrite H1 in H2. inversion H2. apply rd_of_inj. assumption.
 Qed.
 
-(* keyword case: any mixture of upper and lower case ASCII letters is accepted *)
-Lemma ci_refl_lower kw : ci (bs kw) kw <-> map to_lower_ascii (bs kw) = bs kw.
+(* the model's to_lower is the spec's lower; on ASCII tokens both are the bytewise map *)
+Lemma to_lower_lower s : to_lower s = lower s.
 Proof. reflexivity. Qed.
 
-Lemma to_lower_idem s : to_lower (to_lower s) = to_lower s.
+Lemma lower_ascii s : Forall (fun c => c < 128) s -> lower s = map to_lower_ascii s.
 Proof.
-  unfold to_lower. rewrite map_map. apply map_ext. intro c. unfold to_lower_ascii, is_upper.
-  destruct ((65 <=? c) && (c <=? 90)) eqn:E; [|rewrite E; reflexivity].
-  apply andb_true_iff in E as [E1 E2]. apply N.leb_le in E1. apply N.leb_le in E2.
-  assert (E3 : (c + 32 <=? 90) = false) by (apply N.leb_gt; lia).
-  rewrite E3, andb_false_r. reflexivity.
+  induction s as [|c s IH]; intro H; [reflexivity|]. inversion H as [|? ? Hc Hs]; subst.
+  specialize (IH Hs).
+  assert (E : lower (c :: s) = to_lower_ascii c :: lower s).
+  { clear IH H Hs. destruct c as [|p]; [reflexivity|].
+    do 7 (destruct p as [p|p|]; try reflexivity); exfalso; lia. }
+  rewrite E, IH. reflexivity.
 Qed.
 
 (* changing the case of keyword tokens does not change the parse *)
